@@ -837,9 +837,16 @@ type keptResult struct {
 func keepCase(c *ev.Case) {
 	rng := c.Rng
 	V := rng.Pick(3, 5, 9)
-	buf1 := make([]int, rng.Range(2, 14))
-	buf2 := make([]int, rng.Range(1, 10))
-	dstbuf := make([]int, rng.Range(0, 16))
+	n1, n2, nd := rng.Range(2, 14), rng.Range(1, 10), rng.Range(0, 16)
+	if rng.Chance(1, 3) {
+		// operands past any plausible "worth caching / worth a map" threshold
+		n1, n2, nd = rng.Range(30, 160), rng.Range(32, 140), rng.Range(0, 200)
+		V = rng.Pick(9, 40, 200)
+		c.Add("keep_cases_with_operands_of_32_or_more", 1)
+	}
+	buf1 := make([]int, n1)
+	buf2 := make([]int, n2)
+	dstbuf := make([]int, nd)
 	for i := range buf1 {
 		buf1[i] = rng.Intn(V)
 	}
